@@ -134,7 +134,8 @@ func (c *supervisionContext) applyDecision(ctx *Context, targets vivid.ActorRefs
 	case decision.IsResume():
 		c.broadcastAllTargets(ctx, true, messages.CommandResumeMailbox.Build())
 
-	case decision.IsEscalate():
+	case decision.IsEscalate(), !decision.IsValid():
+		// 文档约定：预料之外的决策值按升级处理（此前什么都不做，故障 Actor 会永久处于挂起状态）
 		// 升级后视为自身的故障，但是携带了下级故障信息
 		// 挂起当前 Actor 的消息处理并且向父级 Actor 发送监督上下文以触发父级 Actor 的监督策略
 		ctx.mailbox.Pause()
